@@ -248,7 +248,7 @@ class Part(object):
                     c.start.t,
                     c.staff,
                     clef_sign_to_int(c.sign),
-                    c.line,
+                    c.line if c.line is not None else 0,
                     c.octave_change if c.octave_change is not None else 0,
                 )
                 for c in self.iter_all(Clef)
